@@ -1,6 +1,7 @@
 package main
 
 import (
+	"go/token"
 	"strings"
 
 	"golang.org/x/tools/go/ssa"
@@ -17,7 +18,7 @@ func LAny(pos bool, atoms ...string) LitM {
 			return false
 		}
 		for _, a := range atoms {
-			if l.Atom == a {
+			if l.Atom == a || l.Alt == a {
 				return true
 			}
 		}
@@ -243,38 +244,32 @@ func init() {
 		now := "(*am/nflog.Log).now(recv)"
 		exp := e.StoresToField(l, "am/nflog/nflogpb.MeshEntry", "ExpiresAt")
 		o.Require(len(exp) == 1, "log-expires", "Log must set the entry's expiry once", nil)
-		var ex []string
-		var expPhi *ssa.Phi
+		var expArg ssa.Value
 		if c, ok := exp[0].Val.(*ssa.Call); ok && calleeName(&c.Call) == "timestamppb.New" {
-			for _, v := range e.ValsUnder(nil, c.Call.Args[0]) {
-				ex = append(ex, e.X(l, v))
-			}
-			expPhi, _ = c.Call.Args[0].(*ssa.Phi)
+			expArg = c.Call.Args[0]
 		}
-		o.Site(exp[0], "ExpiresAt ∈ {"+strings.Join(ex, " , ")+"}")
+		o.Require(expArg != nil, "log-expires-shape", "the entry's expiry is not a timestamp built from a time", exp[0])
 		wantR, wantE := "(time.Time).Add("+now+", recv.retention)", "(time.Time).Add("+now+", p5)"
-		hasR, hasE := false, false
-		for _, s := range ex {
-			switch s {
-			case wantR:
-				hasR = true
-			case wantE:
-				hasE = true
-			default:
-				o.Fail("log-expiry-foreign", "the entry's expiry may be "+s, exp[0])
+		posE, ltR := L("(0 < p5)", true), LAny(true, "(p5 < recv.retention)")
+		o.Check(e.CountLitEdges(l, posE)+e.CountLitEdges(l, posE.Neg()) > 0 && e.CountLitEdges(l, ltR)+e.CountLitEdges(l, ltR.Neg()) > 0,
+			"log-expiry-cases", "the expiry must be now+retention, or now+expiry when 0 < expiry < retention: Log no longer compares the requested expiry with 0 and the retention", exp[0])
+		for _, cs := range []struct {
+			name   string
+			assume []LitM
+			want   string
+		}{
+			{"a requested expiry shorter than the retention", A(posE, ltR), wantE},
+			{"no requested expiry", A(posE.Neg()), wantR},
+			{"a requested expiry not shorter than the retention", A(ltR.Neg()), wantR},
+		} {
+			r := (&Walk{Fn: l, Cut: e.CutContradicting(cs.assume...)}).FromEntry()
+			if !o.Check(r.Has(exp[0]), "log-expiry-unset", "with "+cs.name+" the entry gets no expiry", exp[0]) {
+				continue
 			}
-		}
-		o.Check(hasR && hasE, "log-expiry-cases", "the expiry must be now+retention, or now+expiry when 0 < expiry < retention", exp[0])
-		if expPhi != nil {
-			for i, ed := range expPhi.Edges {
-				if e.X(l, ed) == wantE {
-					pred := expPhi.Block().Preds[i]
-					if len(pred.Instrs) > 0 {
-						in := pred.Instrs[0]
-						o.Guarded(in, "log-expiry-guard-pos", "using the shorter expiry", L("(0 < p5)", true))
-						o.Guarded(in, "log-expiry-guard-ret", "using the shorter expiry", LAny(true, "(p5 < recv.retention)"))
-					}
-				}
+			xs := e.XsAt(r, exp[0], expArg)
+			o.SiteS("ExpiresAt with " + cs.name + " ∈ {" + strings.Join(xs, " , ") + "}")
+			for _, x := range xs {
+				o.Check(x == cs.want, "log-expiry-foreign", "with "+cs.name+" the entry's expiry may be "+x+", must be "+cs.want, exp[0])
 			}
 		}
 		ts := e.StoresToField(l, "am/nflog/nflogpb.Entry", "Timestamp")
@@ -357,7 +352,8 @@ func init() {
 		}
 		// Query
 		var qf *ssa.Function
-		for _, a := range Anons(o.Fn("(*am/nflog.Log).Query")) {
+		qfn := o.Fn("(*am/nflog.Log).Query")
+		for _, a := range append([]*ssa.Function{qfn}, Anons(qfn)...) {
 			for _, in := range AllInstrs(a) {
 				if lk, ok := in.(*ssa.Lookup); ok && typeKey(lk.X.Type()) == "am/nflog.state" {
 					qf = a
@@ -374,12 +370,18 @@ func init() {
 		lx := e.X(qf, lk)
 		o.Check(strings.Contains(lx, "[am/nflog.stateKey(&complit:am/nflog.query.groupKey, &complit:am/nflog.query.recv)]") || strings.Contains(lx, "stateKey("), "query-key", "Query must read the state at stateKey(groupKey, recv)", lk)
 		has := L(lx+"#1", true)
-		for _, rs := range e.ResultStores(qf, 1) {
-			if e.X(qf, rs.Val) == "am/nflog.ErrNotFound" {
-				o.Site(rs.Instr, "not found")
-				o.Guarded(rs.Instr, "query-notfound-guard", "answering not-found", has.Neg())
+		nnf := 0
+		for _, in := range AllInstrs(qf) {
+			// the not-found error is read where it is returned
+			if ld, ok := in.(*ssa.UnOp); ok && ld.Op == token.MUL {
+				if g, ok := ld.X.(*ssa.Global); ok && g.Name() == "ErrNotFound" && g.Pkg.Pkg.Path() == long("am/nflog") {
+					nnf++
+					o.Site(in, "not found")
+					o.Guarded(in, "query-notfound-guard", "answering not-found", has.Neg())
+				}
 			}
 		}
+		o.Check(nnf >= 1, "query-notfound", "Query never answers not-found", lk)
 		held, why := e.HeldAt(lk, lk.X.(*ssa.UnOp).X.(*ssa.FieldAddr).X, "mtx", 'R', 2)
 		o.Check(held, "query-lock", "Query reads the state without the lock: "+why, lk)
 		// GC
